@@ -356,7 +356,12 @@ def c17(tier):
             ln = os.path.join(wd, 'sw%d.link' % i)
             if not os.path.exists(ln):
                 os.symlink(f, ln)
+            # ... and as a file without an extension that has a neighbour NAME.bc holding ANOTHER program (the file named is the file read)
+            noext = os.path.join(wd, 'noext%d' % i)
+            open(noext, 'wb').write(bytes(o['bytes']))
+            open(noext + '.bc', 'wb').write(bytes(souts[(i + 1) % len(souts)].get('bytes', [])))
             for cfgname, cmd in (('`fml disassemble < FILE`', '"%s" disassemble < "%s"' % (exe, f)), ('`fml disassemble SYMLINK`', '"%s" disassemble "%s"' % (exe, ln)),
+                                 ('`fml disassemble NAME` (no extension; NAME.bc exists and holds another program)', '"%s" disassemble "%s"' % (exe, noext)),
                                  ('`fml disassemble <(cat FILE)` (a pipe)', '"%s" disassemble <(cat "%s")' % (exe, f)), ('`cat FILE | fml disassemble /dev/stdin`', 'cat "%s" | "%s" disassemble /dev/stdin' % (f, exe))):
                 pr = subprocess.run(['bash', '-c', cmd], cwd=wd, stdout=subprocess.PIPE, stderr=subprocess.PIPE, timeout=60)
                 r.append({'key': sw[i]['name'] + ' :: listing', 'val': {'ok': pr.returncode == 0, 'd': hashlib.sha1(pr.stdout).hexdigest()}, 'cfg': cfgname})
@@ -431,6 +436,8 @@ EDGE_SNIPPETS = [
     # identifiers that begin or end like keywords / literals; keywords glued to digits and underscores
     'iffy', 'endx', 'xend', 'nullable', 'truex', 'falsey', 'printx', 'array1', 'object_', 'thisx', 'this', 'letx', 'beginx', 'dox', 'whiley', 'thenx', 'elsex', 'functionx', 'extendsx',
     '_', '__', '_1', 'a1b2', 'A', 'Z_9', 'null1', 'true_', 'if1', 'end_', 'If', 'NULL', 'True',
+    # letters and digits outside ASCII are not identifier characters, wherever they stand
+    'gr\u00f6\u00dfe', 'total\u00e9', '\u00e9tat', 'x\u0663', 'a\u043e', 'na\u00efve', 'e\u0301', 'x\u00b2', 'caf\u00e9()', 'o.caf\u00e9', 'let gr\u00f6\u00dfe = 1', 'function gr\u00fc\u00df() -> 1', 'a_\u4e16', '\u4e16', 'x\u200d',
     # numbers and the minus sign
     '0', '-0', '00', '007', '-007', '2147483647', '2147483648', '-2147483648', '-2147483649', '99999999999999999999', '1-1', '1 -1', '1 - 1', '1- 1', 'a-1', 'a -1', 'a - 1', '- 1', '-a', '- a',
     '--1', '1--1', '1 - -1', 'a<-1', 'a< -1', 'a <- 1', 'a<--1', 'a<=-1', 'a==-1', 'a!=-1', 'a>=-1', 'a>-1', 'a->b', 'f(-1)', 'a[-1]', 'a[0]-1', 'a.b-1', '1.2', '1 . 2', '1e3', '0x10', '1_000', '1a', '1 a',
